@@ -26,6 +26,7 @@ EXPLANATION = (
     ' (H8) an issue is never written to a solved row after the MCS stage (shared with C03-V8); (H9) the threshold is stored as given.'
     ' (H10) the code that writes confidence and verdict into the rows is not dispatched to worker processes.'
     ' (H11) the rows that reach the scoring loop are selected by solved_by == method alone.'
+    " (H12) the filter stage is built with the Balancer's column names (shared with C04-G16)."
 )
 ASSUMPTIONS = ["confidence in [0,1] is a property of the xgboost model output (not decided)"]
 
